@@ -44,7 +44,7 @@ var rec = ev.For("C39", "exploration",
 
 const windowKey = "delete-during-snapshot-window"
 const closeDeleteKey = "close-vs-delete-deadlock"
-const cacheFreeKey = "cache-free-races-with-write"
+const staleReadKey = "transient-stale-read"
 
 // ---- stamped history ------------------------------------------------------------------------
 
@@ -210,14 +210,7 @@ func runWorkload(t *rapid.T, w workload) *run {
 	})
 	defer verifhook.Set(nil)
 
-	// Open known finding cache-free-races-with-write: ScheduleFullCompaction disables the snapshot
-	// loop, which frees the cache store when Cache.Size()==0 — without excluding a write that lands
-	// between that test and the swap; the write's values vanish from reads until the next restart.
-	// Excluded by construction while open: the snapshotter only calls WriteSnapshot.
-	noFullSchedule := ev.KnownOpen("C39", cacheFreeKey)
-	if noFullSchedule {
-		rec.ExcludedKnown(cacheFreeKey)
-	}
+	noFullSchedule := false
 	var wg sync.WaitGroup
 	var stop atomic.Bool // set by the snapshotter when its schedule (incl. the final compaction linger) is over
 	gi := 0
@@ -537,6 +530,31 @@ func (r *run) checkOverwriterRead(o rop, wi int) (string, bool) {
 	return "", true
 }
 
+// staleRead reports whether a read that fails the interval rule would pass it had it begun
+// earlier, i.e. whether it shows exactly a past state of the series (all returned versions valid
+// for that earlier moment, nothing invented, nothing missing that was acknowledged by then). It
+// returns how many acknowledged writes the read lags behind.
+func (r *run) staleRead(o rop, wi int) (int, bool) {
+	var resps []int64
+	for _, w := range r.wops[wi] {
+		if w.err == nil && w.resp < o.inv {
+			resps = append(resps, w.resp)
+		}
+	}
+	sort.Slice(resps, func(i, j int) bool { return resps[i] > resps[j] })
+	for i, c := range resps {
+		if i >= 200 {
+			break
+		}
+		o2 := o
+		o2.inv = c // writes whose response is >= c are no longer mandatory
+		if _, ok := r.checkOverwriterRead(o2, wi); ok {
+			return i + 1, true
+		}
+	}
+	return 0, false
+}
+
 // deleterStates returns, per timestamp, the set of allowed observations of a read of the
 // writer-deleter's series: the state after each prefix O_1..O_k for k0 <= k <= k1.
 func (r *run) checkDeleterRead(o rop, suspect map[int64]bool) (string, bool, int) {
@@ -701,6 +719,13 @@ func (r *run) verify() {
 		var wi int
 		fmt.Sscanf(o.series, "m0,host=w%d", &wi)
 		if msg, ok := r.checkOverwriterRead(o, wi); !ok {
+			if lag, stale := r.staleRead(o, wi); stale && ev.KnownOpen("C39", staleReadKey) {
+				// open known finding: the read is exactly a PAST state of the series (it would be correct
+				// had it begun `lag` acknowledged writes earlier) — a transient stale read
+				rec.ExcludedKnown(staleReadKey)
+				rec.ClassN("read:stale-by-acknowledged-writes", lag)
+				continue
+			}
 			fail("inconsistent-read", msg, o)
 		}
 		for _, w := range r.wops[wi] {
@@ -964,54 +989,49 @@ func TestKnown_close_vs_delete_deadlock(t *testing.T) {
 	}
 }
 
-// TestKnown_cache_free_races_with_write: one goroutine calls Engine.ScheduleFullCompaction in a
-// loop (each call snapshots the cache and then, finding Cache.Size()==0, frees the cache store),
-// another writes one new point at a time and reads the series back after every acknowledged
-// write. Within a few seconds a read misses a point that was acknowledged before it began.
-func TestKnown_cache_free_races_with_write(t *testing.T) {
-	dir, err := scratch.Dir("c39-known-")
-	if err != nil {
-		t.Fatal(err)
-	}
-	defer os.RemoveAll(dir)
-	f := &fix.ShardFix{Root: dir, Background: true}
-	if err := f.Open(); err != nil {
-		t.Fatal(err)
-	}
-	defer f.Close()
-	var stop atomic.Bool
-	var wg sync.WaitGroup
-	wg.Add(1)
-	go func() {
-		defer wg.Done()
-		for !stop.Load() {
-			if e, err := f.Engine(); err == nil {
-				_ = e.ScheduleFullCompaction()
+// TestKnown_transient_stale_read re-runs the workload in which the generated search first met
+// the finding (1 overwriting writer with batches of one new and sometimes one overwritten
+// timestamp, 3 readers, a writer-deleter on another series, 10 snapshots, 1 backup, GOMAXPROCS 4)
+// up to 3 times and reports whether a read returned a past state of the writer's series.
+func TestKnown_transient_stale_read(t *testing.T) {
+	mk := func(seed int) workload {
+		w := workload{Writers: 1, Readers: 3, WriterOps: 95, Batch: 2, OverwritePct: 30, DeleterOps: 53, ReaderOps: 105, Snapshots: 10, Backups: 1, Procs: 4}
+		for g := 0; g < 12; g++ {
+			ys, cs := make([]int, 16), make([]int, 64)
+			for i := range ys {
+				ys[i] = (i*7 + g*3 + seed) % 13
 			}
+			for i := range cs {
+				cs[i] = (i*i*31 + g*977 + seed*131 + i*7919) % 10000
+			}
+			w.Yields, w.Choices = append(w.Yields, ys), append(w.Choices, cs)
 		}
-	}()
-	deadline := time.Now().Add(8 * time.Second)
+		return w
+	}
 	what := ""
-	written := int64(0)
-	for round := 0; time.Now().Before(deadline) && what == ""; round++ {
-		// a burst of acknowledged single-point writes, then one read of everything
-		for k := 0; k < 300; k++ {
-			if err := f.Store.WriteToShard(context.Background(), fix.ShardID, []models.Point{point("m0,host=w0", written*10, written+1)}); err != nil {
-				t.Fatalf("write: %v", err)
+	rapid.Check(t, func(rt *rapid.T) {
+		// rapid.T is only used as the failure sink of runWorkload; nothing is drawn
+		for attempt := 0; attempt < 3 && what == ""; attempt++ {
+			r := runWorkload(rt, mk(attempt))
+			if r.hung {
+				return
 			}
-			written++
+			for _, o := range r.rops {
+				if o.err != nil || o.series == deleterSeries {
+					continue
+				}
+				if _, ok := r.checkOverwriterRead(o, 0); !ok {
+					if lag, stale := r.staleRead(o, 0); stale {
+						what = fmt.Sprintf("a read of m0,host=w0 (ticks %d..%d, %d points) returned the series as it was %d acknowledged writes earlier: it lacks timestamps whose writes had returned before the read was invoked; %s", o.inv, o.resp, len(o.got), lag, o.diag)
+						break
+					}
+				}
+			}
+			r.f.Close()
+			os.RemoveAll(r.f.Root)
 		}
-		got, err := f.Read("m0,host=w0", "fi", models.MinNanoTime, models.MaxNanoTime, true)
-		if err != nil {
-			t.Fatalf("read: %v", err)
-		}
-		if int64(len(got)) != written {
-			what = fmt.Sprintf("after %d acknowledged single-point writes (the only writer) a read returns %d points while another goroutine loops over Engine.ScheduleFullCompaction: values written while disableSnapshotCompactions frees the cache store (Cache.Size()==0 test, then Cache.Free) are dropped from the cache (they come back from the WAL after a restart)", written, len(got))
-		}
-	}
-	stop.Store(true)
-	wg.Wait()
-	rec.Known(t, "TestKnown_cache_free_races_with_write", cacheFreeKey, what != "", what, nil)
+	})
+	rec.Known(t, "TestKnown_transient_stale_read", staleReadKey, what != "", what, nil)
 }
 
 var _ = sort.Ints
